@@ -11,6 +11,11 @@ Proof.
   - apply Nat.div_lt_upper_bound; lia.
 Qed.
 
+Lemma bsearch_S k f i j :
+  bsearch (S k) f i j = if i <? j then (if f ((i + j) / 2) then bsearch k f i ((i + j) / 2)
+                                        else bsearch k f (S ((i + j) / 2)) j) else i.
+Proof. reflexivity. Qed.
+
 Definition mono_upto (f : nat -> bool) (n : nat) : Prop :=
   forall a b, a <= b -> b < n -> f a = true -> f b = true.
 
@@ -20,12 +25,12 @@ Lemma bsearch_spec f n : mono_upto f n ->
     let r := bsearch fuel f i j in
     r <= n /\ (forall k, k < r -> f k = false) /\ (r < n -> f r = true).
 Proof.
-  intros Hm. induction fuel as [|fuel IH]; intros i j Hf Hij Hjn Hlo Hhi; cbn.
+  intros Hm. induction fuel as [|fuel IH]; intros i j Hf Hij Hjn Hlo Hhi; [cbn|rewrite bsearch_S; cbv zeta].
   - assert (i = j) by lia. subst. repeat split; auto.
   - destruct (Nat.ltb_spec i j) as [Hlt|Hge].
     + pose proof (half_bounds i j Hlt) as [H1 H2].
       destruct (f ((i + j) / 2)) eqn:Eh.
-      * apply IH; auto; lia.
+      * apply IH; auto; try lia.
       * apply IH; auto; try lia.
         intros k Hk. destruct (f k) eqn:Ek; auto.
         rewrite (Hm k ((i + j) / 2)) in Eh; auto; lia.
@@ -128,17 +133,19 @@ Proof.
   inversion Hs as [|? ? _ Hall]; subst. rewrite Forall_forall in Hall. specialize (Hall y Hin). lia.
 Qed.
 
-Lemma sorted_le_last l y : sorted l -> In y l -> (y <= lastN l)%N.
+Lemma sorted_le_last' l : sorted l -> forall y, In y l -> (y <= lastN l)%N.
 Proof.
-  unfold lastN. induction 1 as [|x t Ht IH Hall]; intros Hin; [inversion Hin|].
+  unfold lastN. induction 1 as [|x t Ht IH Hall]; intros y Hin; [inversion Hin|].
   destruct t as [|z t'].
   - destruct Hin as [E|[]]. subst. simpl. lia.
   - change (last (x :: z :: t') 0%N) with (last (z :: t') 0%N).
     destruct Hin as [E|Hin]; [subst|auto].
     rewrite Forall_forall in Hall.
-    assert (In z (z :: t')) by (left; auto).
-    pose proof (Hall z H). pose proof (IH H). lia.
+    assert (H : In z (z :: t')) by (left; auto).
+    pose proof (Hall z H). pose proof (IH z H). lia.
 Qed.
+Lemma sorted_le_last l y : sorted l -> In y l -> (y <= lastN l)%N.
+Proof. intros. apply sorted_le_last'; auto. Qed.
 
 Lemma lastN_in l : l <> [] -> In (lastN l) l.
 Proof.
@@ -159,12 +166,12 @@ Proof.
   { exists false. split; [|right; split; auto].
     - f_equal. f_equal. symmetry. apply filter_none. intros y Hy.
       pose proof (sorted_first_le x t y Hs Hy). unfold in_range.
-      destruct (N.leb_spec y hi); try lia. apply andb_false_r.
+      destruct (N.leb_spec y hi); try lia; try apply andb_false_r.
     - pose proof (sorted_le_last l x Hs (or_introl eq_refl)). lia. }
   destruct (N.ltb_spec (lastN l) lo) as [H2|H2].
   { exists try. split; [|left; auto]. f_equal. f_equal. symmetry. apply filter_none. intros y Hy.
     pose proof (sorted_le_last l y Hs Hy). unfold in_range.
-    destruct (N.leb_spec lo y); try lia. reflexivity. }
+    destruct (N.leb_spec lo y); try lia; try reflexivity. }
   assert (E1 : (if (x <? lo)%N then cut_left lo l else l) = filter (fun y => (lo <=? y)%N) l).
   { destruct (N.ltb_spec x lo); [apply cut_left_spec; auto|].
     symmetry. apply filter_all. intros y Hy. pose proof (sorted_first_le x t y Hs Hy). apply N.leb_le. lia. }
@@ -174,7 +181,7 @@ Proof.
     rewrite cut_right_spec by (apply sorted_filter; auto). rewrite filter_filter. reflexivity.
   - exists try. split; [|left; auto]. f_equal. f_equal.
     apply filter_ext_in. intros y Hy. unfold in_range.
-    pose proof (sorted_le_last l y Hs Hy). destruct (N.leb_spec y hi); try lia. rewrite andb_true_r. reflexivity.
+    pose proof (sorted_le_last l y Hs Hy). destruct (N.leb_spec y hi); try lia; try (rewrite andb_true_r; reflexivity).
 Qed.
 
 (* IteratorAsc: reading (towards smaller LIDs) stops early only when everything before this chunk
@@ -189,12 +196,12 @@ Proof.
   { exists try. split; [|left; auto].
     f_equal. f_equal. symmetry. apply filter_none. intros y Hy.
     pose proof (sorted_first_le x t y Hs Hy). unfold in_range.
-    destruct (N.leb_spec y hi); try lia. apply andb_false_r. }
+    destruct (N.leb_spec y hi); try lia; try apply andb_false_r. }
   destruct (N.ltb_spec (lastN l) lo) as [H2|H2].
   { exists false. split.
     - f_equal. f_equal. symmetry. apply filter_none. intros y Hy.
       pose proof (sorted_le_last l y Hs Hy). unfold in_range.
-      destruct (N.leb_spec lo y); try lia. reflexivity.
+      destruct (N.leb_spec lo y); try lia; try reflexivity.
     - right. split; auto. simpl. pose proof (sorted_le_last l x Hs (or_introl eq_refl)). lia. }
   assert (E2 : forall l1, sorted l1 ->
      (if (hi <=? lastN l)%N then cut_right hi l1 else l1) = filter (fun y => (y <=? hi)%N) l1
@@ -206,11 +213,11 @@ Proof.
     destruct (N.leb_spec hi (lastN l)) as [H4|H4].
     + rewrite cut_right_spec by (apply sorted_filter; auto). rewrite filter_filter. reflexivity.
     + apply filter_ext_in. intros y Hy. unfold in_range.
-      pose proof (sorted_le_last l y Hs Hy). destruct (N.leb_spec y hi); try lia. rewrite andb_true_r. reflexivity.
+      pose proof (sorted_le_last l y Hs Hy). destruct (N.leb_spec y hi); try lia; try (rewrite andb_true_r; reflexivity).
   - exists try. split; [|left; auto]. f_equal. f_equal.
     destruct (N.leb_spec hi (lastN l)) as [H4|H4].
     + rewrite cut_right_spec by auto. apply filter_ext_in. intros y Hy. unfold in_range.
-      pose proof (sorted_first_le x t y Hs Hy). destruct (N.leb_spec lo y); try lia. reflexivity.
+      pose proof (sorted_first_le x t y Hs Hy). destruct (N.leb_spec lo y); try lia; try reflexivity.
     + symmetry. apply filter_all. intros y Hy. unfold in_range.
       pose proof (sorted_first_le x t y Hs Hy). pose proof (sorted_le_last l y Hs Hy).
       apply andb_true_iff. split; apply N.leb_le; lia.
